@@ -76,8 +76,9 @@ class Model:
         self._nk_pc: dict | None = None
         self.backend_calls = [c for c in _walk_own(self.fn.body) if isinstance(c, ast.Call) and self._is_backend(c)]
         self.G: str | None = None
-        if len(self.backend_calls) == 1 and self.backend_calls[0].args:
-            self.G = norm(self.resolve(self.backend_calls[0].args[0]))
+        if self.backend_calls and self.backend_calls[0].args:
+            gs = {norm(self.resolve(c.args[0])) for c in self.backend_calls if c.args}
+            self.G = gs.pop() if len(gs) == 1 else None
         self.A_names: set[str] = set()
         self._find_alias_mapping()
 
